@@ -5,7 +5,7 @@ import vlib
 
 def parse_result(r):
     """<<"RESULT", lines, ntraces, viol, "kind", drift>> printed by ReplayCacheTrace!Report"""
-    for ln in r.prints + r.out.splitlines():
+    for ln in [vlib.result_tuple(r) or ""]:
         m = re.match(r'^<<"RESULT", (\d+), (\d+), (\d+), "([^"]*)", (\d+)>>', ln.strip())
         if m:
             return dict(lines=int(m.group(1)), ntraces=int(m.group(2)), viol=int(m.group(3)), kind=m.group(4),
